@@ -204,7 +204,7 @@ def run(ctx):
     order_rng = random.Random(ctx.seed)
     order_rng.shuffle(primary)
     order_rng.shuffle(secondary)
-    budget = 41 if ctx.quick else 380
+    budget = 38 if ctx.quick else 380
     import time
     t_run0 = time.time()          # the budget counts from here (imports done); at most 25 s of start-up slack on a loaded machine
 
@@ -271,11 +271,18 @@ def run(ctx):
             done_secondary = False
             break
         one(case, ctx.seed * 7919 + 50000 + k)
+    if not ctx.quick and done_primary and done_secondary:
+        # the primary space once more under preemptive interleavings of main / reactor / executor threads (same cases, other schedules)
+        for k, case in enumerate(mine):
+            if left(budget + 150) < 0:
+                break
+            one(case[:4] + (0.2,), ctx.seed * 7919 + 90000 + k)
+            ctx.count("histories_rerun_with_preemption")
     ctx.exhaustive = bool(done_primary and ctx.counters.get("histories_over_budget", 0) == 0)
     if done_primary and done_secondary:
         ctx.note("allow_beta copy of the space completed by this worker")
     # quick floors leave room for a loaded machine (the primary space completes in ~30 s on 4 idle cores; `exhaustive` says whether it did)
-    ctx.floor_distinct = 1000 if ctx.quick else 8192
+    ctx.floor_distinct = 1000 if ctx.quick else 8100
     k = 1 if ctx.quick else 4
     ctx.floor_counters = {"histories": 1000 * k, "downgrade_steps": 400 * k, "connects_succeeded": 300 * k, "connects_failed": 200 * k,
                           "explicit_version_rejected_and_kept": 100 * k, "beta_flag_errors_sent": 20 * k,
